@@ -120,7 +120,9 @@ func (k Keeper) prepareCoinToDistributeForModuleAccount(ctx sdk.Context, source 
 
 func (k Keeper) prepareCoinToDistributeForBaseAccount(ctx sdk.Context, source types.Account, subDistributorName string) sdk.DecCoins {
 	srcAccount, _ := sdk.AccAddressFromBech32(source.Id)
-	coinsToSend := k.GetAccountCoins(ctx, srcAccount)
+	// only spendable coins can be taken: trying to send locked (vesting) coins fails after the bank has already
+	// deducted the other denominations, which would destroy those coins
+	coinsToSend := k.bankKeeper.SpendableCoins(ctx, srcAccount)
 	coinsToDistribute := sdk.NewDecCoinsFromCoins(coinsToSend...)
 
 	if len(coinsToDistribute) > 0 {
